@@ -34,7 +34,13 @@ def main():
     if '--checks' in args:
         only = args[args.index('--checks') + 1].split(',')
     ids = [a for a in args if not a.startswith('--') and a != tier and (only is None or a != ','.join(only))]
-    sdir = os.path.join(VERIF, 'seeded')
+    sub = 'seeded'
+    if '--dir' in args:
+        sub = args[args.index('--dir') + 1]
+        args = [a for a in args if a != sub]
+    sdir = os.path.join(VERIF, sub)
+    smart = '--smart' in args
+    ids = [a for a in ids if a != sub]
     if not ids:
         ids = sorted(d for d in os.listdir(sdir) if os.path.isfile(os.path.join(sdir, d, 'patch.diff')))
     registered = open(os.path.join(VERIF, 'tools', 'registered.txt')).read().split()
@@ -71,6 +77,13 @@ def main():
                 rt = sh('cd %s && %s -m pytest -q -p no:cacheprovider 2>&1 | tail -1' % (WT, PY), timeout=1200)
                 entry['tests'] = rt.stdout.strip()
             checks = registered if allchecks else (only or [prop])
+            if smart:
+                # every check, except that the three slow explorers only run when the patch touches their subject
+                patch = open(os.path.join(d, 'patch.diff')).read()
+                slow = {'C01': ('sorts.py', 'materialise.py', 'json.py', 'random.py', 'hashjoins.py', 'sources.py'),
+                        'C18': ('sorts.py', 'json.py'), 'C02': ()}
+                checks = [c for c in registered if c not in slow or c == prop
+                          or any(('/' + f) in patch for f in slow[c])]
             entry = dict(results.get(mid, {}), **entry)
             entry.setdefault('checks', {})
             for c in checks:
